@@ -182,7 +182,7 @@ func init() {
 		pkgPath:   "github.com/yandex/pandora/core/engine",
 		module:    "InstLoop",
 		namespace: "Pandora.Gen.InstLoop",
-		imports:   []string{"Pandora.Model.C03Loop"},
+		imports:   []string{"Pandora.Model.C03Loop", "Pandora.Model.C03Await"},
 		extra:     instloopExtra,
 	}
 }
@@ -629,5 +629,403 @@ func instloopExtra(t *tr) string {
 			t.errs = append(t.errs, "method (*doAtSchedule)."+m+" not found")
 		}
 	}
+	// ---- engine.go: the pool's bookkeeping (*runAwaitHandle).awaitRun / checkAllInstancesAreFinished
+	b.WriteString(instloopAwait(t, en))
+	return b.String()
+}
+
+// ---------------------------------------------------------------- awaitRun
+
+// instloopAwaitX translates the statements of awaitRun's `case` bodies and of checkAllInstancesAreFinished into
+// `Pandora.Model.C03Await.AInstr` terms. recv = the receiver's name, bound = the variable the case receives into.
+//
+//	ah.<chan> = nil                                          -> .closeChan <chan>
+//	ah.toWait--                                              -> .decToWait
+//	ah.startedInstances = <bound>.Started                    -> .setStarted
+//	ah.awaitedInstances++                                    -> .incAwaited
+//	if !errutil.IsCtxError(ah.runCtx|instanceStartCtx, E) {A} -> .ifBad ctx A .endIf        (E = <bound> or <bound>.Err)
+//	if <bound>.Err == outOfAmmoErr {A} [else if !IsCtxError… {B} | else {B}] -> .ifOutOfAmmo A (.elseIfBad ctx B | .orElse B) .endIf
+//	if !ah.isStartFinished() {A}                             -> .ifStartOpen A .endIf
+//	ah.onErrAwaited(…) / ah.instanceStartCancel() / ah.runCancel() / ah.checkAllInstancesAreFinished()
+//	close(ah.runRes) [; x, ok := <-ah.runRes; if ok { ah.log.Panic(…) }]   -> .closeRunRes
+//	ah.log.*(…), `if ent := ah.log.Check(…); ent != nil { ent.Write(…) }`  -> (nothing: logging only)
+//	anything else                                            -> .other "<source>"   (the bridge rejects it)
+type instloopAwaitX struct {
+	*instloopW
+	bound string
+}
+
+var instloopChans = map[string]string{"providerErr": ".provider", "aggregatorErr": ".aggregator", "startRes": ".start", "runRes": ".run"}
+
+func (x *instloopAwaitX) isLog(s ast.Stmt) bool {
+	switch v := s.(type) {
+	case *ast.ExprStmt:
+		if c, ok := v.X.(*ast.CallExpr); ok {
+			f := x.src(c.Fun)
+			return strings.HasPrefix(f, x.recv+".log.") && f != x.recv+".log.Panic" && f != x.recv+".log.Fatal"
+		}
+	case *ast.IfStmt:
+		if v.Init != nil && v.Else == nil && strings.Contains(x.src(v.Init), x.recv+".log.Check(") {
+			for _, bs := range v.Body.List {
+				es, ok := bs.(*ast.ExprStmt)
+				if !ok || !strings.HasPrefix(x.src(es.X), "ent.Write(") {
+					return false
+				}
+			}
+			return true
+		}
+	}
+	return false
+}
+
+// pureLocal: `a, b := e1, e2` or `_ = e` whose right-hand sides contain no call and no channel operation: it only
+// names values, the handle is not touched.
+func (x *instloopAwaitX) pureLocal(v *ast.AssignStmt) bool {
+	if v.Tok != token.DEFINE {
+		for _, l := range v.Lhs {
+			if id, ok := l.(*ast.Ident); !ok || id.Name != "_" {
+				return false
+			}
+		}
+	} else {
+		for _, l := range v.Lhs {
+			if _, ok := l.(*ast.Ident); !ok {
+				return false
+			}
+		}
+	}
+	pure := true
+	for _, r := range v.Rhs {
+		ast.Inspect(r, func(n ast.Node) bool {
+			switch u := n.(type) {
+			case *ast.CallExpr, *ast.FuncLit:
+				pure = false
+			case *ast.UnaryExpr:
+				if u.Op == token.ARROW {
+					pure = false
+				}
+			}
+			return pure
+		})
+	}
+	return pure
+}
+
+// badCtx: `!errutil.IsCtxError(ah.<ctx>, E)` with E the received error -> ".run" / ".start"
+func (x *instloopAwaitX) badCtx(e ast.Expr) (string, bool) {
+	u, ok := e.(*ast.UnaryExpr)
+	if !ok || u.Op != token.NOT {
+		return "", false
+	}
+	c, ok := u.X.(*ast.CallExpr)
+	if !ok || x.src(c.Fun) != "errutil.IsCtxError" || len(c.Args) != 2 {
+		return "", false
+	}
+	if a := x.src(c.Args[1]); a != x.bound && a != x.bound+".Err" {
+		return "", false
+	}
+	switch x.src(c.Args[0]) {
+	case x.recv + ".runCtx":
+		return ".run", true
+	case x.recv + ".instanceStartCtx":
+		return ".start", true
+	}
+	return "", false
+}
+
+func (x *instloopAwaitX) stmts(list []ast.Stmt) []string {
+	var out []string
+	other := func(n ast.Node) { out = append(out, ".other "+instloopStr(x.src(n))) }
+	for k := 0; k < len(list); k++ {
+		s := list[k]
+		if x.isLog(s) {
+			continue
+		}
+		switch v := s.(type) {
+		case *ast.AssignStmt:
+			if x.pureLocal(v) {
+				continue
+			}
+			if len(v.Lhs) == 1 && len(v.Rhs) == 1 && v.Tok == token.ASSIGN {
+				l, r := x.src(v.Lhs[0]), x.src(v.Rhs[0])
+				if ch, ok := instloopChans[strings.TrimPrefix(l, x.recv+".")]; ok && strings.HasPrefix(l, x.recv+".") && r == "nil" {
+					out = append(out, ".closeChan "+ch)
+					continue
+				}
+				if l == x.recv+".startedInstances" && r == x.bound+".Started" {
+					out = append(out, ".setStarted")
+					continue
+				}
+			}
+			other(s)
+		case *ast.IncDecStmt:
+			t := x.src(v.X)
+			switch {
+			case t == x.recv+".toWait" && v.Tok == token.DEC:
+				out = append(out, ".decToWait")
+			case t == x.recv+".awaitedInstances" && v.Tok == token.INC:
+				out = append(out, ".incAwaited")
+			default:
+				other(s)
+			}
+		case *ast.ExprStmt:
+			c, ok := v.X.(*ast.CallExpr)
+			if !ok {
+				other(s)
+				continue
+			}
+			switch f := x.src(c.Fun); {
+			case f == x.recv+".onErrAwaited":
+				out = append(out, ".onErr")
+			case f == x.recv+".instanceStartCancel" && len(c.Args) == 0:
+				out = append(out, ".startCancel")
+			case f == x.recv+".runCancel" && len(c.Args) == 0:
+				out = append(out, ".runCancel")
+			case f == x.recv+".checkAllInstancesAreFinished" && len(c.Args) == 0:
+				out = append(out, ".checkAll")
+			case f == "close" && len(c.Args) == 1 && x.src(c.Args[0]) == x.recv+".runRes":
+				out = append(out, ".closeRunRes")
+				// the assertion that no result is left: `v, ok := <-ah.runRes; if ok { ah.log.Panic(…) }`
+				if k+2 < len(list) {
+					as, isAs := list[k+1].(*ast.AssignStmt)
+					ifs, isIf := list[k+2].(*ast.IfStmt)
+					if isAs && isIf && len(as.Lhs) == 2 && len(as.Rhs) == 1 && x.src(as.Rhs[0]) == "<-"+x.recv+".runRes" &&
+						ifs.Init == nil && ifs.Else == nil && x.src(ifs.Cond) == x.src(as.Lhs[1]) && len(ifs.Body.List) == 1 &&
+						strings.HasPrefix(x.src(ifs.Body.List[0]), x.recv+".log.Panic(") {
+						k += 2
+					}
+				}
+			default:
+				other(s)
+			}
+		case *ast.IfStmt:
+			if v.Init != nil {
+				other(s)
+				continue
+			}
+			cond := x.src(v.Cond)
+			elseBlock := func() bool { // translates v.Else (nil | block | else-if on IsCtxError); false = unknown shape
+				switch e := v.Else.(type) {
+				case nil:
+					return true
+				case *ast.BlockStmt:
+					out = append(out, ".orElse")
+					out = append(out, x.stmts(e.List)...)
+					return true
+				case *ast.IfStmt:
+					if ctx, ok := x.badCtx(e.Cond); ok && e.Init == nil && e.Else == nil {
+						out = append(out, ".elseIfBad "+ctx)
+						out = append(out, x.stmts(e.Body.List)...)
+						return true
+					}
+				}
+				return false
+			}
+			if ctx, ok := x.badCtx(v.Cond); ok && v.Else == nil {
+				out = append(out, ".ifBad "+ctx)
+				out = append(out, x.stmts(v.Body.List)...)
+				out = append(out, ".endIf")
+				continue
+			}
+			if cond == x.bound+".Err == outOfAmmoErr" {
+				save := len(out)
+				out = append(out, ".ifOutOfAmmo")
+				out = append(out, x.stmts(v.Body.List)...)
+				if !elseBlock() {
+					out = out[:save]
+					other(s)
+					continue
+				}
+				out = append(out, ".endIf")
+				continue
+			}
+			if cond == "!"+x.recv+".isStartFinished()" && v.Else == nil {
+				out = append(out, ".ifStartOpen")
+				out = append(out, x.stmts(v.Body.List)...)
+				out = append(out, ".endIf")
+				continue
+			}
+			other(s)
+		default:
+			other(s)
+		}
+	}
+	return out
+}
+
+// cond translates the test of checkAllInstancesAreFinished into Lean over (sf : Bool) (aw st : Int).
+func (x *instloopAwaitX) cond(e ast.Expr) (string, bool) {
+	switch v := e.(type) {
+	case *ast.ParenExpr:
+		return x.cond(v.X)
+	case *ast.UnaryExpr:
+		if v.Op == token.NOT {
+			if a, ok := x.cond(v.X); ok {
+				return "(!" + a + ")", true
+			}
+		}
+	case *ast.CallExpr:
+		if x.src(v) == x.recv+".isStartFinished()" {
+			return "sf", true
+		}
+	case *ast.BinaryExpr:
+		switch v.Op {
+		case token.LAND, token.LOR:
+			a, ok1 := x.cond(v.X)
+			c, ok2 := x.cond(v.Y)
+			if ok1 && ok2 {
+				return "(" + a + map[token.Token]string{token.LAND: " && ", token.LOR: " || "}[v.Op] + c + ")", true
+			}
+		case token.EQL, token.NEQ, token.LSS, token.LEQ, token.GTR, token.GEQ:
+			num := func(n ast.Expr) (string, bool) {
+				switch x.src(n) {
+				case x.recv + ".awaitedInstances":
+					return "aw", true
+				case x.recv + ".startedInstances":
+					return "st", true
+				}
+				if tv, ok := x.pkg.TypesInfo.Types[n]; ok && tv.Value != nil {
+					return "(" + tv.Value.ExactString() + " : Int)", true
+				}
+				return "", false
+			}
+			a, ok1 := num(v.X)
+			c, ok2 := num(v.Y)
+			if ok1 && ok2 {
+				op := map[token.Token]string{token.EQL: "=", token.NEQ: "≠", token.LSS: "<", token.LEQ: "≤", token.GTR: ">", token.GEQ: "≥"}[v.Op]
+				return "decide (" + a + " " + op + " " + c + ")", true
+			}
+		}
+	}
+	return "", false
+}
+
+func instloopAwait(t *tr, en *packages.Package) string {
+	var b strings.Builder
+	cases := map[string][]string{}
+	loop := "?"
+	if fd := instloopFindMethod(en, "runAwaitHandle", "awaitRun"); fd != nil && len(fd.Recv.List[0].Names) == 1 {
+		x := &instloopAwaitX{instloopW: &instloopW{t: t, pkg: en, recv: fd.Recv.List[0].Names[0].Name}}
+		if len(fd.Body.List) == 1 {
+			if fs, ok := fd.Body.List[0].(*ast.ForStmt); ok && fs.Init == nil && fs.Post == nil && fs.Cond != nil && len(fs.Body.List) == 1 {
+				if sel, ok := fs.Body.List[0].(*ast.SelectStmt); ok {
+					loop = "for " + strings.ReplaceAll(x.src(fs.Cond), x.recv+".", "$.") + " { select }"
+					for _, cl := range sel.Body.List {
+						cc := cl.(*ast.CommClause)
+						ch, bound := "", ""
+						switch c := cc.Comm.(type) {
+						case *ast.AssignStmt:
+							if len(c.Lhs) == 1 && len(c.Rhs) == 1 && c.Tok == token.DEFINE {
+								if u, ok := c.Rhs[0].(*ast.UnaryExpr); ok && u.Op == token.ARROW {
+									ch = strings.TrimPrefix(x.src(u.X), x.recv+".")
+									bound = x.src(c.Lhs[0])
+								}
+							}
+						}
+						lc, known := instloopChans[ch]
+						if !known {
+							t.errs = append(t.errs, "awaitRun: unknown select case "+x.src(cc.Comm))
+							continue
+						}
+						x.bound = bound
+						cases[lc] = x.stmts(cc.Body)
+					}
+				}
+			}
+		}
+		if loop == "?" {
+			x.fail(fd, "awaitRun shape: `for COND { select { … } }` expected")
+		}
+	} else {
+		t.errs = append(t.errs, "method (*runAwaitHandle).awaitRun not found")
+	}
+	b.WriteString("/-- regenerated from `core/engine/engine.go` `(*runAwaitHandle).awaitRun`: the body of each `case` of its `select` -/\n")
+	b.WriteString("def awaitCase : Pandora.Model.C03Await.Chan → List Pandora.Model.C03Await.AInstr\n")
+	for _, c := range []string{".provider", ".aggregator", ".start", ".run"} {
+		l, ok := cases[c]
+		if !ok {
+			l = []string{".other \"no such case\""}
+		}
+		b.WriteString("  | " + c + " => " + instloopList(l, "      ") + "\n")
+	}
+	b.WriteString("\n/-- regenerated from `awaitRun`: the loop around the `select` -/\n")
+	b.WriteString("def awaitLoop : String := " + instloopStr(loop) + "\n\n")
+
+	// checkAllInstancesAreFinished
+	cond, body := "false", []string{".other \"checkAllInstancesAreFinished not found\""}
+	if fd := instloopFindMethod(en, "runAwaitHandle", "checkAllInstancesAreFinished"); fd != nil && len(fd.Recv.List[0].Names) == 1 {
+		x := &instloopAwaitX{instloopW: &instloopW{t: t, pkg: en, recv: fd.Recv.List[0].Names[0].Name}, bound: "\x00"}
+		l := fd.Body.List
+		ok := false
+		// `v := COND; if !v { return }`  or  `if !(COND) { return }`
+		if len(l) >= 2 {
+			if as, isAs := l[0].(*ast.AssignStmt); isAs && len(as.Lhs) == 1 && len(as.Rhs) == 1 && as.Tok == token.DEFINE {
+				if ifs, isIf := l[1].(*ast.IfStmt); isIf && ifs.Init == nil && ifs.Else == nil && x.src(ifs.Cond) == "!"+x.src(as.Lhs[0]) &&
+					len(ifs.Body.List) == 1 && x.src(ifs.Body.List[0]) == "return" {
+					if c, cok := x.cond(as.Rhs[0]); cok {
+						cond, body, ok = c, x.stmts(l[2:]), true
+					}
+				}
+			}
+		}
+		if !ok && len(l) >= 1 {
+			if ifs, isIf := l[0].(*ast.IfStmt); isIf && ifs.Init == nil && ifs.Else == nil && len(ifs.Body.List) == 1 && x.src(ifs.Body.List[0]) == "return" {
+				if u, isU := ifs.Cond.(*ast.UnaryExpr); isU && u.Op == token.NOT {
+					if c, cok := x.cond(u.X); cok {
+						cond, body, ok = c, x.stmts(l[1:]), true
+					}
+				}
+			}
+		}
+		if !ok {
+			x.fail(fd, "checkAllInstancesAreFinished shape")
+		}
+	} else {
+		t.errs = append(t.errs, "method (*runAwaitHandle).checkAllInstancesAreFinished not found")
+	}
+	b.WriteString("/-- regenerated from `(*runAwaitHandle).checkAllInstancesAreFinished`: it goes on only when this holds\n(`sf` = `isStartFinished()`, `aw` = `awaitedInstances`, `st` = `startedInstances`) -/\n")
+	b.WriteString("def awaitCheckCond (sf : Bool) (aw st : Int) : Bool := " + cond + "\n\n")
+	b.WriteString("/-- regenerated from `checkAllInstancesAreFinished`: what it does then -/\n")
+	b.WriteString("def awaitCheckBody : List Pandora.Model.C03Await.AInstr := " + instloopList(body, "  ") + "\n\n")
+
+	// isStartFinished
+	sfin := "?"
+	if fd := instloopFindMethod(en, "runAwaitHandle", "isStartFinished"); fd != nil && len(fd.Recv.List[0].Names) == 1 && len(fd.Body.List) == 1 {
+		w := &instloopW{t: t, pkg: en}
+		if r, ok := fd.Body.List[0].(*ast.ReturnStmt); ok && len(r.Results) == 1 {
+			sfin = strings.ReplaceAll(w.src(r.Results[0]), fd.Recv.List[0].Names[0].Name+".", "$.")
+		}
+	}
+	b.WriteString("/-- regenerated from `(*runAwaitHandle).isStartFinished`: what it returns -/\n")
+	b.WriteString("def awaitStartFinished : String := " + instloopStr(sfin) + "\n\n")
+
+	// newAwaitRunHandle: the initial counters
+	toWait, started := "0", "0"
+	if fd := instloopFindMethod(en, "instancePool", "newAwaitRunHandle"); fd != nil {
+		ast.Inspect(fd.Body, func(n ast.Node) bool {
+			kv, ok := n.(*ast.KeyValueExpr)
+			if !ok {
+				return true
+			}
+			k, isId := kv.Key.(*ast.Ident)
+			if !isId {
+				return true
+			}
+			if tv, ok := en.TypesInfo.Types[kv.Value]; ok && tv.Value != nil {
+				switch k.Name {
+				case "toWait":
+					toWait = tv.Value.ExactString()
+				case "startedInstances":
+					started = tv.Value.ExactString()
+				}
+			}
+			return true
+		})
+	} else {
+		t.errs = append(t.errs, "method (*instancePool).newAwaitRunHandle not found")
+	}
+	b.WriteString("/-- regenerated from `(*instancePool).newAwaitRunHandle`: the initial `toWait` and `startedInstances` -/\n")
+	b.WriteString("def awaitInitToWait : Int := " + toWait + "\n")
+	b.WriteString("def awaitInitStarted : Int := " + started + "\n\n")
 	return b.String()
 }
